@@ -182,17 +182,17 @@ def run(ctx: Ctx) -> None:
                     fail("foreign-equality", n1, f"== / != against {f!r}", case)
             except Exception as e:
                 fail(f"raises:{type(e).__name__}", f"{n1}==foreign", f"{f!r}: {e}", case)
-            if n1 == "Position":
-                for name, op in OPS[:4]:
-                    for l, r in ((x, f), (f, x)):
-                        evaluations += 1
-                        try:
-                            res = op(l, r)
-                            fail("foreign-order-accepted", f"Position{name}", f"{l!r} {name} {r!r} returned {res!r}", case)
-                        except TypeError:
-                            pass
-                        except Exception as e:
-                            fail(f"raises:{type(e).__name__}", f"Position{name}foreign", f"{f!r}: {e}", case)
+            # "comparing any of them with an unrelated object ... makes the ordering operators raise TypeError": all three
+            for name, op in OPS[:4]:
+                for l, r in ((x, f), (f, x)):
+                    evaluations += 1
+                    try:
+                        res = op(l, r)
+                        fail("foreign-order-accepted", f"{n1}{name}", f"{l!r} {name} {r!r} returned {res!r}", case)
+                    except TypeError:
+                        pass
+                    except Exception as e:
+                        fail(f"raises:{type(e).__name__}", f"{n1}{name}foreign", f"{f!r}: {e}", case)
             distinct.add((n1, repr(type(f))))
     samples.append({"foreign": [repr(f) for f in foreign[:6]]})
 
